@@ -507,6 +507,10 @@ type directFS struct {
 }
 
 func (d *directFS) resolveParents(name string) string {
+	if d.cfg["raw"] == "1" {
+		// layer streams: the name reaches the layer exactly as given
+		return name
+	}
 	cn := filepath.Clean(name)
 	pfx := ""
 	if p, ok := d.cfg["p"]; ok && p != "-" && d.cfg["ctor"] == "generic" {
